@@ -141,9 +141,27 @@ Theorem C09_empty_file_rejected : prepare_ranges 0 [] = Err.
 Proof. exact empty_file_rejected. Qed.
 Print Assumptions C09_empty_file_rejected.
 
+(* the default range, the open `-L n` end and the validation are sized by the content of the revision
+   that git blames (--json: HEAD unless a revision is given; otherwise the working copy) *)
+Theorem C09_request_sized_by_blamed_revision :
+  forall count json newest requested rs,
+    prepare_request count json newest requested = Ok rs ->
+    forall r, In r rs -> 1 <= fst r /\ fst r <= snd r /\ snd r <= count (effective_revision json newest).
+Proof. exact request_sized_by_blamed_revision. Qed.
+Print Assumptions C09_request_sized_by_blamed_revision.
+
+Theorem C09_default_range_whole_revision :
+  forall count json newest,
+    1 <= count (effective_revision json newest) ->
+    prepare_request count json newest [] = Ok [(1, count (effective_revision json newest))].
+Proof. exact default_range_whole_revision. Qed.
+Print Assumptions C09_default_range_whole_revision.
+
 Theorem C09_single_number_range :
-  forall n total, 1 <= n -> n <= total -> total < u32_max ->
-    exists r, parse_line_range (print_N n) = Some r /\ prepare_ranges total [r] = Ok [(n, total)].
+  forall count json newest n,
+    let total := count (effective_revision json newest) in
+    1 <= n -> n <= total -> total < u32_max ->
+    exists r, parse_line_range (print_N n) = Some r /\ prepare_request count json newest [r] = Ok [(n, total)].
 Proof. exact single_number_range. Qed.
 Print Assumptions C09_single_number_range.
 
